@@ -13,6 +13,7 @@ import (
 )
 
 type WriteSet struct {
+	ElemsOf []string // parameter names: only the elements of these slices are written
 	Except map[string]bool // with All: heap variables that are nevertheless preserved
 	Fresh map[string]bool // variables written only at references allocated during the call
 	All   bool
@@ -494,6 +495,11 @@ func (fc *FnCtx) modifiesToWS(ct *FuncContract, ws *WriteSet) {
 		}
 		defer func() {}()
 		_ = before
+		if strings.HasPrefix(m, "elems(") && strings.HasSuffix(m, ")") {
+			// only the elements of the named slice parameter are written
+			ws.ElemsOf = append(ws.ElemsOf, m[6:len(m)-1])
+			continue
+		}
 		if strings.HasPrefix(m, "except(") && strings.HasSuffix(m, ")") {
 			// everything may change except the listed variables
 			tmp := newWS()
@@ -570,6 +576,9 @@ func (fc *FnCtx) prescan() {
 			ws := newWS()
 			fc.instrWrites(in, ws, true)
 			if g, ok := in.(*ssa.Go); ok {
+				if fc.syncedGo(g) > 0 {
+					continue // treated as a call at the matching select (sync clause)
+				}
 				any = true
 				vol.union(fc.callWrites(g))
 			}
@@ -595,7 +604,7 @@ func (fc *FnCtx) prescan() {
 		}
 		for _, b := range fc.fn.Blocks {
 			for _, in := range b.Instrs {
-				if _, ok := in.(*ssa.Go); ok {
+				if g, ok := in.(*ssa.Go); ok && fc.syncedGo(g) == 0 {
 					for _, s := range b.Succs {
 						visit(s)
 					}
@@ -603,4 +612,31 @@ func (fc *FnCtx) prescan() {
 			}
 		}
 	}
+}
+
+// syncedGo: if the go statement is named by a "sync go#k at select#j" clause,
+// returns j (the select at which its effects are applied), else 0.
+func (fc *FnCtx) syncedGo(g *ssa.Go) int {
+	if fc.contract == nil || len(fc.contract.SyncGo) == 0 {
+		return 0
+	}
+	var gos []*ssa.Go
+	for _, b := range fc.fn.Blocks {
+		for _, in := range b.Instrs {
+			if x, ok := in.(*ssa.Go); ok {
+				gos = append(gos, x)
+			}
+		}
+	}
+	sort.Slice(gos, func(i, j int) bool { return gos[i].Pos() < gos[j].Pos() })
+	for i, x := range gos {
+		if x == g {
+			for _, p := range fc.contract.SyncGo {
+				if p[0] == i+1 {
+					return p[1]
+				}
+			}
+		}
+	}
+	return 0
 }
